@@ -127,6 +127,10 @@ def build(cfg, log):
     n = len(samplers) + (0 if any(type(s) is HaltonSampler for s in samplers) else 1)
     env = MABCalibrationEnv(n)
     agent = make_agent(cfg["agent"], n, log)
+    if cfg.get("used_env") is not None and hasattr(env, "_curr_best_loss"):
+        # the agent / environment pair has already driven an earlier calibration (its reference best loss is what that run left): a NEW
+        # scheduler built on it starts a new calibration - bootstrap batch first, rewards relative to the new run's losses
+        env._curr_best_loss = float(cfg["used_env"])  # noqa: SLF001
     sched = RLScheduler(samplers, agent=agent, env=env, random_state=cfg.get("sched_seed", 0))
     if len(vt.VQueue.registry) < 2:
         raise HarnessBroken("the scheduler/environment did not create virtual queues: seam defeated by a refactor")
